@@ -21,13 +21,13 @@ META = dict(
     level='proof',
     technique='Coq proof about a model of print_xact\'s per-posting decisions, of the reader on such lines and of posts_as_equity (print shows what was written; re-read of an exactly balanced transaction is accepted with the same exact amounts and costs; the two-posting elision happens only when both postings must balance and is then sound; print never fails; posting marks bring the state back; per-unit and total costs re-read to the same total; printing twice is stable; equity reproduces per-account per-commodity sums) + differential correspondence against ledger + implementation-only round-trip oracle',
     level_text='Theorems in coq/Properties/Properties_C06.v are stated for Model/Print.v: `decide` (post_has_simple_amount, the count == 2 && index == 2 elision, POST_CALCULATED / ITEM_GENERATED suppression, the @ / @@ choice with the printed per-unit cost |given_cost / amount|, state marks, bare 0 for a display-zero amount, read_back = amount_t::print then amount_t::parse at display precision with zero trimming), `reread` (what parse_post makes of such a line) followed by Model/Xact.v `finalize`, and `equity_account`. The model is tied to the code by tokenizing ledger\'s print output into the same decision records and by comparing finalize of the original and of the re-read printed text (exact rationals via the verif_rational hook).',
-    level_note='Trusted: Coq kernel; the MPFR display rounding model Base/Round.v (validated by C04); extraction/driver/harness for the correspondence. Of the layout only the rule that separates account and amount is modelled (account column = max(36, longest printed name), amount right-justified in 12, gap topped up to two blanks; account_width / sep_blanks / posting_blanks, theorem print_separates_account_and_amount) and compared with the raw bytes of every printed posting line; note placement and blank lines are covered by the byte-identity oracle print(print J) == print J only. Amount text <-> amount value is C04\'s subject (AmountText.v); here an amount is printed as the value the reader gets back (read_back). Not modelled: amount expressions `(expr)`, --generated, automated/periodic transactions in print, metadata set programmatically (print.cc:172-183), value-expression annotations, commodity styles beyond prefix/suffix, the iteration order of accounts in equity. Known findings still listed: F8 (zero amount printed as bare 0), F29 (re-read rejected after the commodity precision grew), F30 (equity rounds an inferred amount to display precision), F31 (all-zero transaction not printed). Repaired in /repo and now enforced as violations by the oracle: virtual-pair elision (bcb53b0, old F7), posting mark under a marked transaction (294def6, old F27), zero amount with a per-unit cost (c386080, old F28).',
+    level_note='Trusted: Coq kernel; the MPFR display rounding model Base/Round.v (validated by C04); extraction/driver/harness for the correspondence. Of the layout only the rule that separates account and amount is modelled (account column = max(36, longest printed name), amount right-justified in 12, gap topped up to two blanks; account_width / sep_blanks / posting_blanks, theorem print_separates_account_and_amount) and compared with the raw bytes of every printed posting line; note placement and blank lines are covered by the byte-identity oracle print(print J) == print J only. Amount text <-> amount value is C04\'s subject (AmountText.v); here an amount is printed as the value the reader gets back (read_back). Not modelled: amount expressions `(expr)`, --generated, automated/periodic transactions in print, metadata set programmatically (print.cc:172-183), value-expression annotations, commodity styles beyond prefix/suffix, the iteration order of accounts in equity. Known findings still listed: F8 (zero amount printed as bare 0), F29 (re-read rejected after the commodity precision grew), F30 (equity rounds an inferred amount to display precision), F31 (all-zero transaction not printed), F135 (the roundings of two printed balance assignments on one account add up and the second printed assertion is rejected). Repaired in /repo and now enforced as violations by the oracle: virtual-pair elision (bcb53b0, old F7), posting mark under a marked transaction (294def6, old F27), zero amount with a per-unit cost (c386080, old F28).',
     design_ref='DESIGN.md section 7 C06',
     assumptions=['the posting finalize infers for a single posting under a bucket directive is part of every comparison (rows with states, print decisions, layout)',
                  'journals accepted by ledger (a journal with any error is outside the quantifier; erroneous transactions are dropped by the generator)',
                  'commodities $ EUR AAA BBB CCC without thousands marks or decimal comma (C04 covers styles)',
                  'payees start with x<N>; account, payee, code and note text avoid `|`, `[`, a leading `(`/`[` and two consecutive blanks before `;`',
-                 'balance assignments only on dedicated accounts whose running total the generator tracks',
+                 'balance assignments only on dedicated accounts whose running total the generator tracks; the amount ledger computes for one is handed to the model (it teaches the pool nothing), the re-read printed journal is decided by the assertion journal loop of Model/Assert.v',
                  'equity: amounts written at or below the commodity precision (hypothesis of equity_reproduces_balances)'],
 )
 
@@ -1197,7 +1197,7 @@ def run(ctx, n_override=None):
     res.rule = ('accepted journals of 3-10 transactions: two-posting shapes around the elision (real, [balanced], (virtual) pairs, '
                 'different written precision, equal lots, first/second elided in the source, costs, implied rate, zero amounts), exactly '
                 'balanced multi-commodity transactions with @/@@/(@) costs and virtual postings, one elided amount, excess-precision per-unit '
-                'costs at the half-unit boundary, lot sales with {price} [date] (tag), postings with both a lot price and a written cost (@ / @@ / (@) / (@@), equal to or different from lot price x quantity, sales and purchases), balance assignments/assertions, `0 X @ price`; in 30% of the journals a bucket directive (`A`, `bucket`, `account` + `default`; a third of them inside `apply account ROOT`) with single-posting transactions marked `*`/`!` on the header and/or the posting, real, [balanced] or (virtual), with or without a cost; '
+                'costs at the half-unit boundary, lot sales with {price} [date] (tag), postings with both a lot price and a written cost (@ / @@ / (@) / (@@), equal to or different from lot price x quantity, sales and purchases), balance assignments/assertions, also on accounts whose running total carries a residue below the display precision (an elided leg of a per-unit cost with 3 or 4 decimals, followed by an assignment on that account), `0 X @ price`; in 30% of the journals a bucket directive (`A`, `bucket`, `account` + `default`; a third of them inside `apply account ROOT`) with single-posting transactions marked `*`/`!` on the header and/or the posting, real, [balanced] or (virtual), with or without a cost; '
                 'account names of 30..45 characters placed around the account column of print (column-3 .. column+0, the longest at the column) with amounts of 9..14 and more characters, so that every gap 0..3 between name and amount occurs; decorated with states on transactions and postings (also a posting mark that differs from the mark of its transaction), codes, auxiliary dates, notes, tags, key: value metadata and unusual '
                 'payee/account text; non-trivial = a transaction with at least one such feature in a journal whose printed text re-reads; '
                 'distinct by rendered transaction text')
@@ -1287,7 +1287,28 @@ def replay(ctx, obj):
             r1, r2 = parse_rows(out1), parse_rows(out2)
             sig = lambda rows: [[(r['acct'], r['virtual'], r['cleared'], r['pending'], show_kq(r['amt']), show_kq(r['cost'])) for r in rows[i]]
                                 for i in sorted(rows)]
-            if sig(r1) != sig(r2):
+            # transactions with a balance assignment (`ACCT  = AMOUNT`, no amount of its own): their computed amounts need only
+            # agree to the display precision of the printed text
+            assigning = set()
+            cur = None
+            for l in case['journal'].split('\n'):
+                if l and not l.startswith(' '):
+                    m = re.search(r'\bx(\d+)', l)
+                    cur = int(m.group(1)) if m else None
+                elif cur is not None and re.match(r'\s+(?:[*!] )?\S(?:[^;]*?\S)?(?:\s{2,}|\t)=\s', l):
+                    assigning.add(cur)
+
+            def close(i, a, b):
+                if a == b:
+                    return True
+                if i not in assigning or a['acct'] != b['acct'] or not a['amt'] or not b['amt'] or a['amt'][0] != b['amt'][0]:
+                    return False
+                tol = F(1, 2 * 10 ** b['amt'][2])
+                return abs(a['amt'][1] - b['amt'][1]) <= tol and (a['cleared'], a['pending'], a['virtual']) == (b['cleared'], b['pending'], b['virtual'])
+            same = sorted(r1) == sorted(r2) and all(len(r1[i]) == len(r2[i]) and all(
+                close(i, a, b) or (a['acct'], a['virtual'], a['cleared'], a['pending'], show_kq(a['amt']), show_kq(a['cost'])) ==
+                (b['acct'], b['virtual'], b['cleared'], b['pending'], show_kq(b['amt']), show_kq(b['cost'])) for a, b in zip(r1[i], r2[i])) for i in r1)
+            if not same:
                 diff = [(a, b) for a, b in zip(sum(sig(r1), []), sum(sig(r2), [])) if a != b][:4]
                 print('rows differ:', diff)
                 res.violations.append(dict(key='replay-rows', desc='the re-read rows differ from the original: %s' % diff, case=case,
